@@ -47,6 +47,7 @@ for sh in ("s", "d"):
     _reg("e" + sh + ".var1", lambda d, sh=sh: _sel(d.expanding(), sh).var(), lambda df, sh=sh: _osel(df, sh).var(), True, "(AExp (RVar 1) %s)" % _SH[sh])
     _reg("e" + sh + ".var0", lambda d, sh=sh: _sel(d.expanding(), sh).var(ddof=0), lambda df, sh=sh: _osel(df, sh).var(ddof=0), True, "(AExp (RVar 0) %s)" % _SH[sh])
     _reg("e" + sh + ".std1", lambda d, sh=sh: _sel(d.expanding(), sh).std(), lambda df, sh=sh: _osel(df, sh).std(), True, "(AExp (RVar 1) %s)" % _SH[sh], square=True)
+    _reg("e" + sh + ".std0", lambda d, sh=sh: _sel(d.expanding(), sh).std(ddof=0), lambda df, sh=sh: _osel(df, sh).std(ddof=0), True, "(AExp (RVar 0) %s)" % _SH[sh], square=True)
 _reg("es.size", lambda d: d.expanding().x.size, lambda df: df["x"].size, False, "(AExp RSize (Ser 0))")
 
 _reg("vc.k", lambda d: d.k.value_counts(), lambda df: df["k"].value_counts(), False, "AVC", keycol="k")
@@ -83,6 +84,8 @@ for gm in ("gc", "gs"):
             _reg(p + "size", lambda d, gm=gm, vs=vs: _grp(d, gm, vs).size(), lambda df, vs=vs: _ogrp(df, vs).size(), False, "(AGrp GSize %s)" % t)
             _reg(p + "var0", lambda d, gm=gm, vs=vs: _grp(d, gm, vs).var(ddof=0), lambda df, vs=vs: _ogrp(df, vs).var(ddof=0), True, "(AGrp (GVar 0) %s)" % t)
             _reg(p + "std1", lambda d, gm=gm, vs=vs: _grp(d, gm, vs).std(), lambda df, vs=vs: _ogrp(df, vs).std(), True, "(AGrp (GVar 1) %s)" % t, square=True)
+            # a non-default ddof must reach the variance underneath
+            _reg(p + "std0", lambda d, gm=gm, vs=vs: _grp(d, gm, vs).std(ddof=0), lambda df, vs=vs: _ogrp(df, vs).std(ddof=0), True, "(AGrp (GVar 0) %s)" % t, square=True)
 
 AGG_IDS = list(AGGS)
 
